@@ -17,7 +17,38 @@ def main():
     bak = os.path.join(VERIF, "build", "evidence_backup_matrix")
     shutil.rmtree(bak, ignore_errors=True)
     shutil.copytree(ev, bak)
+    import threading
+    from concurrent.futures import ThreadPoolExecutor
+    lock = threading.Lock()
+    workers = int(os.environ.get("MATRIX_WORKERS", "4"))
+
+    def one(d):
+        name = os.path.basename(d)
+        wt = "/root/scratch/matrix_" + name
+        sh("git -C /repo worktree remove --force %s" % wt)
+        sh("git -C /repo worktree add --detach %s HEAD" % wt)
+        try:
+            r = sh("git -C %s apply %s" % (wt, os.path.join(d, "patch.diff")))
+            if r.returncode:
+                with lock:
+                    matrix[name] = {"error": "patch does not apply"}
+                return
+            row = dict(matrix.get(name, {}))
+            for p in claimed:
+                if p in row:
+                    continue
+                r = sh("cd %s && VERIF_REPO=%s ./check %s --tier quick" % (VERIF, wt, p), timeout=3600)
+                v = [ln for ln in r.stdout.splitlines() if ln.startswith("VIOLATION")]
+                row[p] = ("V" if v and "no-failing-input-found" not in v[0] else ("v" if v else "."))
+                print(name, p, row[p], flush=True)
+                with lock:
+                    matrix[name] = dict(row)
+                    json.dump(matrix, open(out_path, "w"), indent=1)
+        finally:
+            sh("git -C /repo worktree remove --force %s" % wt)
+
     try:
+        todo = []
         for d in sorted(glob.glob(os.path.join(VERIF, "seeded", "*"))):
             name = os.path.basename(d)
             if not os.path.isdir(d) or not os.path.exists(os.path.join(d, "patch.diff")):
@@ -26,26 +57,9 @@ def main():
                 continue
             if name in matrix and len(matrix[name]) == len(claimed):
                 continue
-            wt = "/root/scratch/matrix_" + name
-            sh("git -C /repo worktree remove --force %s" % wt)
-            sh("git -C /repo worktree add --detach %s HEAD" % wt)
-            try:
-                r = sh("git -C %s apply %s" % (wt, os.path.join(d, "patch.diff")))
-                if r.returncode:
-                    matrix[name] = {"error": "patch does not apply"}
-                    continue
-                row = matrix.get(name, {})
-                for p in claimed:
-                    if p in row:
-                        continue
-                    r = sh("cd %s && VERIF_REPO=%s ./check %s --tier quick" % (VERIF, wt, p), timeout=3600)
-                    v = [ln for ln in r.stdout.splitlines() if ln.startswith("VIOLATION")]
-                    row[p] = ("V" if v and "no-failing-input-found" not in v[0] else ("v" if v else "."))
-                    print(name, p, row[p], flush=True)
-                matrix[name] = row
-                json.dump(matrix, open(out_path, "w"), indent=1)
-            finally:
-                sh("git -C /repo worktree remove --force %s" % wt)
+            todo.append(d)
+        with ThreadPoolExecutor(max_workers=workers) as ex:
+            list(ex.map(one, todo))
     finally:
         shutil.rmtree(ev, ignore_errors=True)
         shutil.copytree(bak, ev)
